@@ -30,6 +30,11 @@ ASSUMPTIONS = ["lmfit's optimiser is symmetric under a global sign flip of "
                "data, amplitudes and amplitude bounds"]
 
 MUTANTS = [
+    ("island peak pixel located with nanargmax", "AegeanTools/source_finder.py",
+     "                positions = np.where(kappa_sigma == source.peak_flux)",
+     "                positions = np.unravel_index(\n"
+     "                    [np.nanargmax(kappa_sigma)], kappa_sigma.shape)",
+     "C13-R8"),
     ("fractional error terms selected by the sign of the ratio",
      "AegeanTools/fitting.py",
      "              source.peak_flux) ** 2 if source.err_peak_flux > 0 else 0",
@@ -280,6 +285,7 @@ def run(ctx):
     r5_fields(ctx, prog)
     r6_guards(ctx, prog)
     r7_error_symmetry(ctx, prog)
+    r8_island_peak(ctx, prog)
 
 
 def _stmt(pm, n):
@@ -736,3 +742,92 @@ def r7_error_symmetry(ctx, prog):
                   "a term is selected by the sign of a flux-dependent "
                   "quantity" % tuple(res), node=body[idx])
     ctx.floor("C13-R7", n, 1, "err_int_flux computations interpreted")
+
+
+def r8_island_peak(ctx, prog):
+    """the island summary reports the same pixel for an island and for its
+    negation"""
+    from ..concrete import Unknown, ev, run
+    ctx.rule("C13-R8", "island summaries are sign symmetric: the statements "
+             "of result_to_components that pick the island's peak value and "
+             "its pixel are interpreted for a sample island and for its "
+             "negation; the peak value must negate and the pixel index must "
+             "be the same")
+    fi = prog.func("source_finder.SourceFinder.result_to_components")
+    body = [st for st in walk_no_nested(fi.node) if isinstance(st, ast.stmt)]
+    # the thresholded pixel array and the island object
+    sel = [st for st in body if isinstance(st, ast.Assign)
+           and isinstance(st.targets[0], ast.Name)
+           and isinstance(st.value, ast.Call)
+           and norm(st.value.func) in ("np.where", "numpy.where")
+           and len(st.value.args) == 3
+           and norm(st.value.args[2]) in ("np.nan", "numpy.nan")]
+    isl = [st.targets[0].id for st in body if isinstance(st, ast.Assign)
+           and isinstance(st.value, ast.Call) and len(st.targets) == 1
+           and isinstance(st.targets[0], ast.Name)
+           and norm(st.value.func).split(".")[-1] == "IslandSource"]
+    if not sel or not isl:
+        raise AnalysisError("C13-R8: island summary of result_to_components")
+    karr, isl = sel[0].targets[0].id, isl[0]
+    # statements between the selection and the first use of the pixel index
+    # in a coordinate / look-up, restricted to those about the peak
+    pos = [st for st in body if isinstance(st, ast.Assign)
+           and isinstance(st.targets[0], ast.Name)
+           and st.lineno > sel[0].lineno and karr in names_in(st.value)
+           and any(isinstance(c, ast.Call) and
+                   norm(c.func).split(".")[-1] in (
+                       "where", "nanargmax", "nanargmin", "argmax",
+                       "unravel_index", "nonzero")
+                   for c in ast.walk(st.value))]
+    if not pos:
+        raise AnalysisError("C13-R8: peak pixel look-up not found")
+    pname = pos[0].targets[0].id
+    top = fi.node.body
+    # the enclosing block of the look-up (the body of `if doislandflux`)
+    blk = None
+    for st in ast.walk(fi.node):
+        for fld in ("body", "orelse"):
+            sub = getattr(st, fld, None)
+            if isinstance(sub, list) and any(
+                    x is pos[0] or any(y is pos[0] for y in ast.walk(x))
+                    for x in sub) and any(x is sel[0] for x in sub):
+                blk = sub
+    if blk is None:
+        raise AnalysisError("C13-R8: block of the island summary")
+    start = [k for k, x in enumerate(blk) if x is sel[0]][0]
+    stop = max(k for k, x in enumerate(blk)
+               if x is pos[0] or any(y is pos[0] for y in ast.walk(x)))
+    stmts = [x for x in blk[start + 1:stop + 1]
+             if isinstance(x, (ast.Assign, ast.AugAssign, ast.If)) and (
+                 {karr, pname} & names_in(x) or
+                 "%s.peak_flux" % isl in norm(x))]
+    samples = {"positive island": [1.0, 3.0, 2.5, float("nan")],
+               "negative island": [-1.0, -3.0, -2.5, float("nan")],
+               "plateau": [2.0, 2.0, 1.0, float("nan")]}
+    n = 0
+    for name, smp in samples.items():
+        res = []
+        try:
+            for sign in (1.0, -1.0):
+                env = {karr: [sign * v for v in smp]}
+                run(stmts, env)
+                idx = ev(ast.parse("%s[0][0]" % pname, mode="eval").body,
+                         env)
+                res.append((idx, env.get("%s.peak_flux" % isl)))
+        except Unknown as u:
+            ctx.unknown_site("C13-R8", fi, "peak look-up not interpreted "
+                             "(%s)" % u, node=pos[0])
+            continue
+        n += 1
+        ok = res[0][0] == res[1][0] and (
+            res[0][1] is None or res[1][1] is None or
+            res[0][1] == -res[1][1])
+        ctx.check("C13-R8", fi, "%s: (pixel, peak) %s vs negated %s" %
+                  (name, res[0], res[1]), ok,
+                  "for the %s the island summary picks pixel %s with peak "
+                  "%s, for the negated island pixel %s with peak %s: the "
+                  "reported position (and background / noise read there) "
+                  "changes under negation" %
+                  (name, res[0][0], res[0][1], res[1][0], res[1][1]),
+                  node=pos[0])
+    ctx.floor("C13-R8", n, 2, "sample islands interpreted")
